@@ -75,6 +75,7 @@ import "github.com/gopacket/gopacket"
 //@   props C06
 //@   requires len(sbview(b)) <= 65527
 //@   ensures result
+
 func verifLemmaRoundTripUDP(u *UDP, b gopacket.SerializeBuffer, cs bool, df gopacket.DecodeFeedback) bool {
 	n := len(b.Bytes())
 	err := u.SerializeTo(b, gopacket.SerializeOptions{FixLengths: true, ComputeChecksums: cs})
